@@ -73,7 +73,7 @@ pub fn run(a: &Args, out: &mut Out) {
     let mut id = 0usize; let mut evals = 0u64;
     let mut kinds = std::collections::BTreeMap::<&str, u64>::new();
     let mut distinct = std::collections::BTreeSet::<String>::new();
-    let mut emit = |out: &mut Out, lines: Vec<String>, id: &mut usize, evals: &mut u64| { *evals += lines.len() as u64; run_lines(out, *id, &lines); *id += 1; };
+    let emit = |out: &mut Out, lines: Vec<String>, id: &mut usize, evals: &mut u64| { *evals += lines.len() as u64; run_lines(out, *id, &lines); *id += 1; };
 
     // (1) decision-relevant bits: sign x 13 prefix bits x 4 tag bits, with boundary payloads
     let prefixes: Vec<u128> = if thorough { (0..8192).collect() } else {
@@ -94,7 +94,7 @@ pub fn run(a: &Args, out: &mut Out) {
         emit(out, lines, &mut id, &mut evals);
     }
     // (2) pointer/length round trips: all lengths around the limits, boundary pointers
-    let max_len: u128 = (NanBox::MAX_VALUE_LENGTH as u128);
+    let max_len: u128 = NanBox::MAX_VALUE_LENGTH as u128;
     let mut lens: Vec<u128> = (0..=40).collect();
     for d in 0..6 { lens.push((1 << 14) - 3 + d); lens.push(max_len.saturating_sub(2) + d); }
     lens.extend([65535, 65536, 70000, u32::MAX as u128, usize::MAX as u128, (usize::MAX >> 1) as u128]);
